@@ -71,6 +71,7 @@ def run(tier):
 def api_items(exported, thorough):
     std = scripts.std_cfgs()
     items = []
+    n = 0
     for ci, cn in enumerate(["v2c", "v3-md5", "v1", "v3-sha1-aes", "v3-noauth"]):
         if cn not in exported:
             continue
@@ -78,9 +79,14 @@ def api_items(exported, thorough):
         for pi, plan in enumerate(plans):
             if not thorough and (pi + ci + SEED) % (14 if cn in ("v2c", "v3-md5") else 40):
                 continue
-            items.append((["sync", "async"][(pi + ci) % 2] if not thorough else "sync", cn, std[cn], plan, (pi + ci + SEED) % 28))
+            # client and pacing are taken from a running counter (not from the sampled index: that would tie them to the sampling stride)
+            n += 1
+            variant = (n * 5 + n // 2) % 28            # odd variants: the agent spaces its datagrams
             if thorough:
-                items.append(("async", cn, std[cn], plan, (pi + ci + SEED) % 28))
+                items.append(("sync", cn, std[cn], plan, variant))
+                items.append(("async", cn, std[cn], plan, variant + 1))
+            else:
+                items.append((["sync", "async"][n % 2], cn, std[cn], plan, variant))
     return items
 
 
